@@ -568,6 +568,7 @@ fn handle(st: &Shared, host: &'static str, conn: u64, idx: usize, m: Msg) -> Ans
     g.log.push(Recv { host, conn, idx_on_conn: idx, msg: m, sig, latched_at_recv, token, kind, answered_status: status, seq, wall_recv_ns: vrt::time::wall_now_ns() });
     let _ = vrt::try_with(|w| w.log("host", format!("{} conn={} #{} {} -> {}", host, conn, idx, kind, status)));
     g.notify.notify_waiters();
+    crate::crash::note_host_state(&g);
     ans
 }
 
